@@ -209,20 +209,23 @@ PATHS = []
 # ---- enumeration -----------------------------------------------------------------------------
 
 def expressions(tier):
+    """quick: all texts with <= 2 atoms over 6 navigations; thorough: <= 2 atoms over 9 navigations plus <= 3 atoms over 2 navigations
+    (3 atoms over the full alphabet would be 2.1 million expressions, about four hours)"""
     navs = ["packages", "classes", "methods", "~ext", "~packages", "'a'~classes"]
+    spaces = [(navs, 2)]
     if tier == "thorough":
-        navs += ["~classes", "ext", "'b'~packages"]
+        spaces = [(navs + ["~classes", "ext", "'b'~packages"], 2), (["classes", "~ext"], 3)]
     old = c12._NAV[0]
-    c12._NAV[0] = navs
     seen = set()
     try:
-        N, D = (2, 1) if tier == "quick" else (3, 1)
-        for n in range(1, N + 1):
-            for s in c12.gen_seq(n, D, tier):
-                s = s.replace("parent(T)", "parent(P)")
-                if s not in seen:
-                    seen.add(s)
-                    yield s
+        for nv, N in spaces:
+            c12._NAV[0] = nv
+            for n in range(1, N + 1):
+                for s in c12.gen_seq(n, 1, tier):
+                    s = s.replace("parent(T)", "parent(P)")
+                    if s not in seen:
+                        seen.add(s)
+                        yield s
     finally:
         c12._NAV[0] = old
 
@@ -463,10 +466,11 @@ def run(ctx):
     ctx.pmap(work_chain, [ch[i:i + 40] for i in range(0, len(ch), 40)])
     _, models = world()
     return {
-        "rule": "case = (RREL expression, model, start object, dotted name, target type); expressions = all texts with <= %s atoms from the alphabet; "
+        "rule": "case = (RREL expression, model, start object, dotted name, target type); expressions = %s; plus grammar references resolved while "
+                "loading (every statement order of a chain of references navigating over each other); "
                 "models = %d fixed models (%d objects in total, names {a,b} colliding across levels and classes, ext references incl. a cycle); names = all "
                 "%d dotted names up to 3 parts; distinct_nontrivial counts expressions with at least one evaluation whose reference match set is non-empty" % (
-                    "2" if ctx.tier == "quick" else "3", len(models), sum(len(o) for _, o in models), len(NAMES)),
+                    "all texts with <= 2 atoms over 6 navigations" if ctx.tier == "quick" else "all texts with <= 2 atoms over 9 navigations and with <= 3 atoms over 2 navigations", len(models), sum(len(o) for _, o in models), len(NAMES)),
         "exhaustive": True, "expressions": len(exprs),
     }, ["set semantics: inside brackets alternatives are a union; precedence is judged between top-level alternatives only"]
 
